@@ -553,6 +553,26 @@ func VerifC15ElementReps() {
 	if e1 == nil && e2 == nil {
 		nd.Assert(values.Equal(v1, v2), "element-representation-same-result")
 	}
+	// equal records built separately are duplicates for uniq, whatever represents them
+	distinct := 1
+	if k2 != k1 {
+		distinct++
+	}
+	if k3 != k1 && k3 != k2 {
+		distinct++
+	}
+	mkr := func(rep, k int) any {
+		switch rep {
+		case 1:
+			return map[string]int{"k": k}
+		case 2:
+			return c15RepDrop{map[string]any{"k": k}}
+		}
+		return map[string]any{"k": k}
+	}
+	ur := nd.Choice(3)
+	vu, eu := fEval("a | uniq | size", map[string]any{"a": []any{mkr(ur, k1), mkr(ur, k2), mkr(ur, k3), mkr(ur, k1)}})
+	nd.Assert(eu == nil && vu.(int) == distinct, "uniq-equal-records-are-duplicates")
 	// nils among the elements do not disturb the order of the others
 	v3, e3 := fEval("a | sort | compact | join: ','", map[string]any{"a": []any{3, nil, k1, 1, nil}})
 	v4, e4 := fEval("a | sort | join: ','", map[string]any{"a": []any{3, k1, 1}})
